@@ -383,6 +383,18 @@ pub fn check(opts: &CheckOpts) -> i32 {
             how_to_replay: format!("/verif/check {} --replay {}", opts.prop, path.display()),
         };
         let _ = std::fs::write(&path, serde_json::to_string_pretty(&rf).unwrap_or_default());
+        // the replay file must reproduce in a fresh process; if the minimised scenario does not,
+        // fall back to the scenario as it was found
+        if !replays_in_fresh_process(&path) && f.minimised {
+            if let Some(orig) = found.iter().find(|o| o.run_index == f.run_index && o.violation.class == f.violation.class && !o.minimised) {
+                let rf2 = ReplayFile { violation: orig.violation.clone(), minimised: false, scenario: orig.scenario.clone(), ..rf };
+                let _ = std::fs::write(&path, serde_json::to_string_pretty(&rf2).unwrap_or_default());
+                eprintln!("  (the minimised scenario did not reproduce in a fresh process; the replay file holds the scenario as found)");
+            }
+            if !replays_in_fresh_process(&path) {
+                eprintln!("HARNESS WARNING: {} does not reproduce in a fresh process", path.display());
+            }
+        }
         lines.push(format!("VIOLATION property={} replay={}", opts.prop, path.display()));
         eprintln!(
             "  class={} clause={} run={} (lines {} -> {}, {} minimiser checks)\n  {}",
@@ -479,6 +491,14 @@ pub fn check(opts: &CheckOpts) -> i32 {
         return 2;
     }
     i32::from(new_violations > 0)
+}
+
+fn replays_in_fresh_process(path: &std::path::Path) -> bool {
+    let Ok(exe) = std::env::current_exe() else { return true };
+    match Command::new(exe).arg("replay").arg(path).stdin(Stdio::null()).stderr(Stdio::null()).output() {
+        Ok(o) => String::from_utf8_lossy(&o.stdout).contains("REPRODUCED class=") && !String::from_utf8_lossy(&o.stdout).contains("NOT REPRODUCED"),
+        Err(_) => true,
+    }
 }
 
 fn minimise_found(f: Found, kf: &KnownFindings) -> Found {
